@@ -159,6 +159,12 @@ pub fn assemble_with(pki: &Pki, c: &Value, content: &[u8]) -> (Vec<u8>, String) 
     let to_sign = attrs_to_sign(&attrs);
     let mut signature = sign(pki, if g("sig") == "wrongkey" { "e1" } else { "e0" }, &to_sign);
     if g("sig") == "bitflip" { signature[17] ^= 0x40; }
+    if g("sig") == "stale" {
+        // what is embedded is not what was signed: the signing time moved on by a second
+        let st2 = attribute(OID_AT_SIGNING_TIME, der::utctime("240301120001Z"));
+        for a in attrs.iter_mut() { if *a == st { *a = st2.clone(); } }
+        attrs.sort();
+    }
     let mut sid = ski_of(pki, "e0");
     if g("sid") == "bad" { sid[19] ^= 1; }
     // (TIGHT, only with the instants around the wall clock: windows begin resp. end at instant 1, three seconds before this process
